@@ -634,3 +634,95 @@ def k2_escape_counter(res, tier):
         elif r.kind in ('oob', 'unreachable', 'ub', 'diverge', 'depth'):
             res.fail(f'C15.K2:escape_counter:{r.kind}', f'Scanner::string: path ends in {r.kind}: {str(r.info)[:200]}', {'path': str(r.info)})
     summarize_paths(res, e, results, lambda r: r.info if isinstance(r.info, dict) else None, key_prefix='C15.K2:escape:', unwind_ok=True)
+
+
+# ---------------------------------------------------------------------------------------------- `super` needs an instance method
+F77_SRC = ('class Base { who() { return "Base.who on " + self.cls().name(); } }\nclass Outer {\n  m() {\n    class Inner : Base { static s() { return super.who(); } }\n    return Inner.s();\n  }\n}\n'
+           'print(Outer().m());\n')
+F77_REPLAY = dict(kind='lay', source=F77_SRC, bad_re=r'Base\.who on', bad_exit=[0], note='`super` in a static method must be rejected (there is no self); it binds the self of the enclosing method instead')
+
+
+@obligation('C02.K2.super_needs_instance_method', 'C02', programs=('vm',), also=('C03',))
+def k2_super_self(res, tier):
+    """Resolver::super_ and Resolver::self_ from MIR for every kind of enclosing function (method, initialiser, static method, plain
+    function inside a class body, none): the implicit `self` that `super.m()` loads is resolved only where an instance exists —
+    elsewhere a diagnostic is reported, so the name can never be bound to the `self` of an unrelated enclosing method"""
+    P = get_program('vm')
+    fk = P.enum_def('laythe_core::object::FunKind') or P.enum_def('FunKind')
+    res.bounds = {'enclosing function kind': 'none / Fun / Method / StaticMethod / Initializer / Script', 'class context': 'present or absent'}
+    for fname, ast_ty in (('super_', 'compiler::ir::ast::Super'), ('self_', None)):
+        f = P.lookup('compiler::resolver::Resolver::' + fname)
+        if f is None:
+            res.inconclusive(f'Resolver::{fname} not located')
+            continue
+        e = Engine(P, loop_bound=4, timeout_s=120, max_depth=40)
+
+        def m_class_info(e_, a, c):
+            oty = norm_ty(c.dest_ty)
+            if not e_.fork_bool(z3.Bool('inside_a_class')):
+                e_.path_state['kind'] = 'no class'
+                return e_.mk_option(e_, oty)
+            info = e_.path_state.get('class_info')
+            if info is None:
+                info = e_.path_state['class_info'] = e_.fresh('compiler::resolver::ClassInfo', 'class_info')
+            return e_.mk_option(e_, oty, Ref(Cell(info)))
+        e.model(r'^(compiler::)?(resolver::)?Resolver::class_info$', m_class_info)
+
+        def m_resolve(e_, a, c):
+            tok = a[1].cell.get(e_) if isinstance(a[1], Ref) else a[1]
+            e_.path_state['order'].append(('resolve', tok))
+            return UNIT
+        e.model(r'^(compiler::)?(resolver::)?Resolver::resolve_variable$', m_resolve)
+
+        def m_error(e_, a, c):
+            e_.path_state['order'].append(('error', None))
+            return UNIT
+        e.model(r'^(compiler::)?(resolver::)?Resolver::error$', m_error)
+        e.allow_havoc(r'^(compiler::)?(ir::)?(token::)?Token::(?!new$)\w+$', r'^(compiler::)?(ir::)?(ast::)?\w+::(start|end|span)$', r'^<.* as (compiler::)?(ir::)?(ast::)?Spanned>::\w+$',
+                      r'^<.* as (std::ops::|core::ops::)?Drop>::drop$', r'^(std::ptr::|core::ptr::)?drop_in_place$')
+        tk = P.enum_def('compiler::ir::token::TokenKind') or P.enum_def('TokenKind')
+
+        def path(e, f=f, fname=fname, ast_ty=ast_ty):
+            e.path_state['order'] = []
+            r = e.fresh('compiler::resolver::Resolver', 'resolver')
+            arg = e.fresh(ast_ty, 'node') if ast_ty else e.fresh('compiler::ir::token::Token', 'self_token')
+            e.call(f, [Ref(Cell(r)), Ref(Cell(arg))])
+            order = e.path_state['order']
+            # was a `self` resolved?  (for self_: any resolve; for super_: a resolve of a token of kind Self_)
+            self_resolved = False
+            for k, tok in order:
+                if k != 'resolve':
+                    continue
+                if fname == 'self_':
+                    self_resolved = True
+                else:
+                    sd = P.struct_def('compiler::ir::token::Token')
+                    kd = tok.field(e, sd.index_of('kind'), sd.fields[sd.index_of('kind')][1]).get(e) if isinstance(tok, Struct) else None
+                    if isinstance(kd, EnumV) and (kd.tag == tk.vindex['Self_'] if isinstance(kd.tag, int) else e.is_valid(kd.tag == tk.vindex['Self_'])):
+                        self_resolved = True
+            errors = sum(1 for k, _ in order if k == 'error')
+            info = e.path_state.get('class_info')
+            instance = False
+            if info is not None:
+                sdi = P.struct_def('compiler::resolver::ClassInfo')
+                fkv = info.field(e, sdi.index_of('fun_kind'), sdi.fields[sdi.index_of('fun_kind')][1]).get(e)
+                tag = fkv.tag if not isinstance(fkv.tag, int) else bv(fkv.tag, 64)
+                inner = fkv.field(e, 'Some', 0, fk.name).get(e) if e.sat(tag == 1) else None
+                if inner is not None:
+                    it = inner.tag if not isinstance(inner.tag, int) else bv(inner.tag, 64)
+                    instance = e.is_valid(z3.And(tag == 1, z3.Or(it == fk.vindex['Method'], it == fk.vindex['Initializer'])))
+            if self_resolved and errors == 0:
+                e.check(instance, f'Resolver::{fname}: `self` is resolved without a diagnostic only inside a method or an initialiser',
+                        {'inside a class': info is not None})
+            return {'fn': fname, 'self resolved': self_resolved, 'diagnostics': errors, 'instance method': instance}
+        results = e.explore(path)
+        for r in results:
+            for lab, ok, info in list(r.checks):
+                if not ok:
+                    res.fail(f'C02.K2:Resolver::{fname} resolves self outside an instance method',
+                             f'Resolver::{fname} resolves the implicit `self` whatever the kind of the enclosing function: `super.m()` in a static method (or a plain function in a class body) '
+                             'binds the `self` of an unrelated enclosing method and runs the super method on it', info, replay=F77_REPLAY)
+                    r.checks.remove((lab, ok, info))
+            if r.kind in ('oob', 'unreachable', 'ub', 'diverge', 'depth', 'panic'):
+                res.fail(f'C02.K2:{fname}:{r.kind}', f'Resolver::{fname}: path ends in {r.kind}: {str(r.info)[:200]}', {'path': str(r.info)})
+        summarize_paths(res, e, results, lambda r: r.info if isinstance(r.info, dict) else None, key_prefix=f'C02.K2:{fname}:', unwind_ok=False)
